@@ -22,7 +22,7 @@ func c19(c *h.Ctx) {
 	runWorkers(c, workerOpts{Mode: "deco", Race: true, Shards: 8, Timeout: 15 * time.Minute, Anchors: anchors})
 
 	// formats x outcomes, library level (child per case)
-	outcomes := []string{"success", "fail", "allowed-failure", "skipped", "before-fails", "both-streams", "long-ansi-lines", "then-success", "then-fail", "then-skipped", "then-before-fails"}
+	outcomes := []string{"success", "fail", "allowed-failure", "skipped", "before-fails", "both-streams", "long-ansi-lines", "fail-coloured-tail", "ok-coloured-tail", "then-success", "then-fail", "then-skipped", "then-before-fails"}
 	formats := []string{"raw", "prefixed", "cockpit"}
 	results := map[string]map[string]string{}
 	type job struct{ f, o string }
@@ -34,6 +34,7 @@ func c19(c *h.Ctx) {
 		}
 	}
 	resCh := make(chan [3]string, len(jobs))
+	visCh := make(chan [3]string, len(jobs))
 	h.Par(len(jobs), 8, func(i int) {
 		j := jobs[i]
 		work := filepath.Join(c.Work, fmt.Sprintf("fmt.%d", i))
@@ -70,7 +71,12 @@ func c19(c *h.Ctx) {
 		}
 		sc := bufio.NewScanner(bytes.NewReader(res.Stdout))
 		for sc.Scan() {
-			if t := sc.Text(); strings.Contains(t, `"k":"fmtresult"`) {
+			if t := sc.Text(); strings.Contains(t, `"k":"fmtvisible"`) {
+				if k := strings.Index(t, `{"`); k > 0 {
+					t = t[k:]
+				}
+				visCh <- [3]string{j.o, j.f, t}
+			} else if strings.Contains(t, `"k":"fmtresult"`) {
 				// the child's standard output is also where cockpit draws: a spinner frame may precede the record
 				if k := strings.Index(t, `{"`); k > 0 {
 					t = t[k:]
@@ -83,6 +89,25 @@ func c19(c *h.Ctx) {
 	close(resCh)
 	for r := range resCh {
 		results[r[0]][r[1]] = r[2]
+	}
+	// what the user sees of the task's output (prefixes, terminators and escape sequences removed) is the same under
+	// raw and prefixed, whatever the outcome of the task
+	close(visCh)
+	vis := map[string]map[string]string{}
+	for r := range visCh {
+		if vis[r[0]] == nil {
+			vis[r[0]] = map[string]string{}
+		}
+		vis[r[0]][r[1]] = r[2]
+	}
+	for _, o := range outcomes {
+		if o == "both-streams" {
+			continue // the order in which two streams reach one sink is not determined (and differs by format)
+		}
+		if a, b := vis[o]["raw"], vis[o]["prefixed"]; a != "" && b != "" && a != b {
+			c.Violate("visible-output-depends-on-format/prefixed", fmt.Sprintf("task outcome %s: payload shown under raw %s, under prefixed %s", o, clip(a, 300), clip(b, 300)), map[string]interface{}{"outcome": o})
+		}
+		c.Count("visible_payloads_compared", 1)
 	}
 	for _, o := range outcomes {
 		for _, f := range formats[1:] {
